@@ -201,7 +201,7 @@ P = D.DesignProperty(
     rule=("case = generated Repeat / Merge / Nest over CrossBlocks with constraints on member blocks and/or on the combinator; non-trivial = at "
           "least one sequence judged, a non-Exclude constraint present and at least 2 repetition windows; class placement-distinguishes = the "
           "reference finds the member-scoped and combinator-scoped readings of an AtMostKInARow different; distinct = distinct spec JSON"),
-    cfg_quick=CFG, n_quick=150, n_thorough=600, case_limit=(20, 120), strategy=c26_cases,
+    cfg_quick=CFG, n_quick=150, n_thorough=600, case_limit=(12, 120), strategy=c26_cases,
     limits={"max_T": {"quick": 9, "thorough": 13}, "max_models": {"quick": 800, "thorough": 8000}, "max_seqs": {"quick": 800, "thorough": 8000},
             "node_cap": {"quick": 200000, "thorough": 2000000}},
     assumptions=["vp/ref.py compile_merge/compile_nest implement the documented scoping (self-tested on Repeat leftovers and two Nest designs)",
